@@ -322,6 +322,29 @@ func r05_3(c *Ctx, rule string) {
 			c.R.Check(!fromClone && fromB, rule, c.siteName(call)+"/stat-as-sent", c.pos(call), "the change carries the source walker's own stat", "the change handed to the writer can carry the filtered clone made for the comparison instead of the stat as sent: digest header and reported metadata are the filtered ones")
 		}
 	}
+	// the receiver-side filter works on a private deep copy: what it rewrites
+	// (scalars or the xattr map in place) never reaches the stat that is
+	// hashed and reported
+	if hcf := c.P.Fn("fsutil.(*DiskWriter).HandleChange"); hcf != nil {
+		nf := 0
+		for _, call := range c.P.CallsTo(hcf, "field:fsutil.DiskWriter.filter") {
+			a := call.Common().Args
+			ok := true
+			for _, cand := range eng.ResolveAll(a[len(a)-1]) {
+				arg := eng.Canon(cand)
+				one := c.isCallValueTo(arg, "types.(*Stat).Clone", "types.(*Stat).CloneVT")
+				if al, isAl := arg.(*ssa.Alloc); isAl && len(structLitFields(al)) == 0 {
+					one = true // the empty stat handed to the filter for a delete
+				}
+				if !one {
+					ok = false
+				}
+			}
+			nf++
+			c.R.Check(ok, rule, c.siteName(call)+"/filter-gets-deep-copy", c.pos(call), "the filter is handed stat.Clone() (or an empty stat)", "the filter is handed something other than a deep Clone() of the received stat: in-place edits (xattr map, byte slices) reach the stat as sent, which seeds the digest and is reported")
+		}
+		c.R.Floor(rule, "filter calls in DiskWriter.HandleChange", nf, 1)
+	}
 	// every processChange receives HandleChange's own fi
 	hc := c.Fn(rule, "fsutil.(*DiskWriter).HandleChange")
 	pc := c.Fn(rule, "fsutil.(*DiskWriter).processChange")
